@@ -14,7 +14,7 @@ CONSTANTS Structs,      \* subset of {"prot","unprot","sign1","sig","sign","sign
 
 A63 == <<127, 255, 255, 255, 255, 255, 255, 255>>
 \* integer labels as (neg, a)
-IntLabels == { <<FALSE, NatToArg(n)>> : n \in {1, 2, 3, 4, 5, 6, 7, 9, 11, 12, 15, 16, 32, 33, 34, 35, 99, 258} }
+IntLabels == { <<FALSE, NatToArg(n)>> : n \in {1, 2, 3, 4, 5, 6, 7, 9, 11, 12, 15, 16, 32, 33, 34, 35, 99, 258, 259, 260} }
              \cup { <<TRUE, <<>>>>, <<TRUE, <<1, 0, 0>>>>, <<FALSE, A63>>, <<TRUE, A63>>, <<FALSE, <<128, 0, 0, 0, 0, 0, 0, 0>>>> }
 SpelledLabels == { [t |-> t, neg |-> il[1], a |-> il[2]] : t \in Spellings, il \in IntLabels } 
 FittingLabels == { l \in SpelledLabels : FitsType(l.t, l.neg, l.a) }
